@@ -2,15 +2,19 @@
 # usage: run_seeded_par.sh [-j N] [id ...]  - like run_seeded.sh, but N seeded changes at a time (default 3), each in its own scratch
 # worktree of /repo HEAD, without the vacuity canaries (PGVERIF_NO_CANARY=1: they test the contracts, not the changed tree) and
 # from a SNAPSHOT of /verif.  Results are merged into seeded/RESULTS.txt; nothing is ever applied to /repo itself.
+# PGVERIF_SEEDED_DIR=harmless runs the stored BEHAVIOUR-PRESERVING changes instead (expected outcome: exit 0 or 2, never 1).
 if [ "$1" = "--one" ]; then
   id=$2; S=$3; OUT=$4; T=$5
-  d=/verif/seeded/$id; [ -f $d/patch.diff ] || exit 0
+  DIR=${PGVERIF_SEEDED_DIR:-seeded}
+  d=/verif/$DIR/$id; [ -f $d/patch.diff ] || exit 0
   W=$T/pgverif-seededp-wt.$id; E=$T/pgverif-seededp-ev.$id
   rm -rf "$W"; git -C /repo worktree prune
   git -C /repo worktree add -q --detach "$W" HEAD || exit 0
   mkdir -p "$E"
   prop=${id%%-*}
   props="$prop $(python3 -c "import json;print(' '.join(json.load(open('$d/meta.json')).get('also_check',[])))" 2>/dev/null | grep -v conda)"
+  # behaviour-preserving changes (harmless/R-k): the properties to check are listed in meta.json
+  if [ "$prop" = "R" ]; then props="$(python3 -c "import json;print(' '.join(json.load(open('$d/meta.json')).get('properties',[])))" 2>/dev/null | grep -v conda)"; fi
   if ! git -C "$W" apply $d/patch.diff 2>/dev/null; then echo "$id apply-failed (the stored patch no longer applies to /repo HEAD)" > "$OUT/$id.res"
   else
     : > "$OUT/$id.res"
@@ -30,14 +34,15 @@ T=${TMPDIR:-/var/tmp}
 S=$T/pgverif-seededp-snap.$$
 mkdir -p "$S"
 rsync -a --exclude .git --exclude evidence --exclude replay --exclude seeded /verif/ "$S"/
-ids="$*"; [ -z "$ids" ] && ids=$(ls seeded | grep -v RESULTS | sort)
+DIR=${PGVERIF_SEEDED_DIR:-seeded}
+ids="$*"; [ -z "$ids" ] && ids=$(ls $DIR | grep -v RESULTS | sort)
 OUT=$T/pgverif-seededp-out.$$; mkdir -p "$OUT"
 for id in $ids; do echo $id; done | xargs -P $J -I{} bash /verif/tools/run_seeded_par.sh --one {} "$S" "$OUT" "$T"
 for id in $ids; do
   [ -f "$OUT/$id.res" ] || continue
-  if [ -f seeded/RESULTS.txt ]; then grep -v "^$id " seeded/RESULTS.txt > seeded/RESULTS.txt.keep; mv seeded/RESULTS.txt.keep seeded/RESULTS.txt; fi
-  cat "$OUT/$id.res" >> seeded/RESULTS.txt
+  if [ -f $DIR/RESULTS.txt ]; then grep -v "^$id " $DIR/RESULTS.txt > $DIR/RESULTS.txt.keep; mv $DIR/RESULTS.txt.keep $DIR/RESULTS.txt; fi
+  cat "$OUT/$id.res" >> $DIR/RESULTS.txt
 done
-sort -o seeded/RESULTS.txt seeded/RESULTS.txt
+sort -o $DIR/RESULTS.txt $DIR/RESULTS.txt
 git -C /repo worktree prune
 rm -rf "$S" "$OUT"
